@@ -12,12 +12,21 @@ RULE = ('a case = {cfg, ops}: cfg picks deployable / CI-context-required / dismi
         '+/- {WIP, stacked PR, prio:high, do-not-test, bug}, status report (CI context / required status / optional status / '
         'required check-run; current or OLD head), test batch completes success|failure|cancelled, deploy batch completes, '
         'target branch moves (new sha or back to an old one), merge-conflict toggle, freeze/unfreeze, CI restart, update tick, '
-        'bare batch / github notification.  Every event carries a deliver flag: delivered = the real notification path the '
+        'bare batch / github notification, and FAULT INJECTION: op fault(class, skip, n, kind, ttl) arms "the (skip+1)-th '
+        'upcoming client call of this class fails, n calls in a row (n=99: outage), armed for ttl entry points"; classes = '
+        'GitHub refs|pulls|graphql|status|assignees|merge|gh-any, Batch list|bstatus|submit|cancel|batch-any; kinds = '
+        'gidgethub 502 / 403, asyncio.TimeoutError, ServerDisconnectedError, aiohttp ClientResponseError for GitHub, '
+        'non-transient 404/403 ClientResponseError for Batch.  A fault is fail-before-effect (request not served, no ground '
+        'truth change, no "CI has read" stamp); the exception leaves WatchedBranch._update exactly as in production and is '
+        'swallowed where update_loop (log + retry at the next period) / the aiohttp handler (500) swallow it; the history '
+        'goes on with whatever notify_github_changed / notify_batch_changed / periodic update comes next.  Every event carries a deliver flag: delivered = the real notification path the '
         'service runs for it (pull_request/push/review webhook -> notify_github_changed; batch callback -> '
         'notify_batch_changed; statuses have no webhook -> periodic update); undelivered = only GitHub/Batch ground truth '
         'changes and CI learns at a later update.  Operands are indices modulo the live objects; an op whose precondition '
         'fails is skipped and counted.  The generator mixes single ops with fragments "make green/approved, perturb, then '
-        'deliver".  Oracle: monitor on PUT /pulls/N/merge against ground truth at that instant.  Non-trivial: a merge attempt '
+        'deliver", "two test batches complete, one notification" (>= 2 PRs mergeable against one target commit), "arm a '
+        'fault, then an event" and "two green, fault, notification, follow-up notification"; 5 of 6 cases start with 2..3 '
+        'PRs.  Oracle: monitor on PUT /pulls/N/merge against ground truth at that instant.  Non-trivial: a merge attempt '
         'for a PR that had a green batch which was afterwards invalidated by a head push or a target move (green < '
         'perturbation < attempt).')
 ASSUMPTIONS = [
@@ -36,13 +45,23 @@ ASSUMPTIONS = [
     'Batch objects per listing; status/cancel/delete/submit); db = authorized_shas / invalidated_batches lookups (all PR '
     'authors are in AUTHORIZED_USERS); gidgethub = tiny module with HTTPException/BadRequest(.status_code)',
     'updates are driven one at a time to completion (no event lands between two GitHub calls of one _update); exceptions '
-    'leaving _update are swallowed as the webhook handler / update_loop do; only AssertionError and ValueError are '
-    'expected there, anything else is a harness error',
+    'leaving _update are swallowed as the webhook handler / update_loop do; only AssertionError, ValueError and the very '
+    'exception objects the fault plan injected are expected there, anything else is a harness error',
+    'FAULT MODEL: fail-before-effect only (a request that was served but whose response was lost is NOT generated); '
+    'GitHub calls go through the raw aiohttp session (no retry), so 5xx/403 HTTPException, total-timeout and disconnects '
+    'surface; Batch calls go through hailtop Session.request, which retries every transient error forever, so only '
+    'non-transient 4xx ClientResponseError surface; db calls never fail; a fault never lands inside the fake git shell',
+    'a GitHub fact counts as read by CI only if the call that carries it was served (GraphQL: the last page); a merge '
+    'decided on a fact whose refresh failed is counted as stale_view(+_after_failed_refresh):<fact>, not flagged, exactly '
+    'like an undelivered webhook; changes CI made itself (its own merge moving the target) need no read and stay strict',
     '"every reported check" is read as: CI\'s own context plus every context branch protection marks required (isRequired), '
     'as reported on the ground-truth head; passing = SUCCESS or NEUTRAL; unreported required contexts are not "reported"',
     'a clause is enforced strictly only if CI has read the fact (refs / pulls list / GraphQL of that PR) since the fact last '
     'changed, or the change was made by CI itself; a merge decided on a not-yet-delivered change is counted as '
     'stale_view:<fact>, not flagged (inherent webhook race; GitHub enforces head sha by 409)',
+    "CI's own commit status is CI's report of its test batch: if CI's latest POST of it for the head was lost to an injected "
+    'fault, the own-status clause is judged by what CI tried to post (own_status_post_lost_before_merge) and the batch '
+    'ground truth alone decides "tested"; an own context written by someone else after that lost POST stays strict',
     'the do-not-merge label names (WIP, stacked PR) are taken from the CI UI constant in ci/ci/ci.py, not from github.py',
 ]
 TRUSTED = ['vlib/fakegithub.py (fake GitHub REST/GraphQL, fake Batch service, fake db)', 'hostenv module stubs',
@@ -136,10 +155,14 @@ class World:
         self.push_t = {}          # pr number -> ticks of head pushes
         self.excluded_known = 0
         self.refresh_aborted = None
+        self.refresh_failed = False     # an injected fault aborted WatchedBranch._update_github and no refresh completed since
+        self.drive_merges0 = 0          # gh.n_merge_shas when the current entry point started
+        self.in_drive = None
+        self.faults = F.FaultPlan(G.gidgethub, on_fire=self.on_fault)
         self.gh = F.FakeGitHub(G.gidgethub, ci_context=G.GITHUB_STATUS_CONTEXT, ci_required=bool(cfg.get('ci_required', 1)),
                                filler=int(cfg.get('filler', 0)), dismiss_stale=bool(cfg.get('dismiss_stale', 0)),
-                               monitor=self.monitor)
-        self.svc = F.FakeBatchService(env.Batch, lambda: self.gh._tick())
+                               monitor=self.monitor, faults=self.faults)
+        self.svc = F.FakeBatchService(env.Batch, lambda: self.gh._tick(), faults=self.faults)
         self.db = F.FakeDB()
         self.bc = self.svc.client()
         self.wb = None
@@ -152,21 +175,49 @@ class World:
                                   bool(self.cfg.get('deployable', 0)), True, [])
 
     # -- drive the real service entry points -----------------------------------------------------------------------------
+    def on_fault(self, side, cls, kind):
+        self.classes.add('fault_fired')
+        self.classes.add(f'fault:{side}:{cls}')
+        self.classes.add(f'fault_kind:{kind}')
+        if self.gh.n_merge_shas > self.drive_merges0:
+            self.classes.add('fault_after_merge')        # same entry point, after a merge GitHub accepted
+            if cls == 'refs':
+                self.classes.add('fault_after_merge:target_reread')
+
     def drive(self, which):
+        """One entry point of the service, run to completion, with the caller's exception handling: ci.py update_loop wraps
+        wb.update in `except Exception: log.exception(...)` and sleeps to the next period; the webhook / batch-callback
+        handlers let the exception propagate to aiohttp (500 for that request).  Either way the service lives on with
+        whatever state _update left behind."""
         wb = self.wb
         fn = {'github': wb.notify_github_changed, 'batch': wb.notify_batch_changed, 'update': wb.update}[which]
         refs_before = self.gh.refs_read
         self.gh.call_budget = 3000       # a terminating update of <= 4 PRs makes a few dozen GitHub calls
-        try:
-            self.env.loop.run_until_complete(fn(self.db, self.bc, self.gh, self.frozen))
-            if self.gh.refs_read != refs_before:
-                self.refresh_aborted = None          # a complete GitHub refresh went through
-        except (AssertionError, ValueError) as e:
+        self.drive_merges0 = self.gh.n_merge_shas
+        self.in_drive = which
+        if self.refresh_failed:
+            self.classes.add(f'{ {"github": "github_changed", "batch": "batch_changed", "update": "periodic_update"}[which] }'
+                             '_after_failed_refresh')
+
+        def frames(e):
             import traceback
             tb = traceback.extract_tb(e.__traceback__)
-            names = [f.name for f in tb if f.filename.endswith('ci/ci/github.py') or f.filename.endswith('ci/ci/utils.py')]
+            return [f.name for f in tb if f.filename.endswith('ci/ci/github.py') or f.filename.endswith('ci/ci/utils.py')]
+
+        def refreshed(names=()):
+            # the last _update_github of this entry point ran to its end (the exception, if any, came from elsewhere)
+            if self.gh.refs_read != refs_before and '_update_github' not in names:
+                self.refresh_aborted = None
+                self.refresh_failed = False
+
+        try:
+            self.env.loop.run_until_complete(fn(self.db, self.bc, self.gh, self.frozen))
+            refreshed()
+        except (AssertionError, ValueError) as e:
+            names = frames(e)
             where = names[-1] if names else '?'
             self.classes.add(f'update_raised:{type(e).__name__}@{where}')
+            refreshed(names)
             if '_update_github' in names:
                 # WatchedBranch._update cleared github_changed before the refresh that just died: what CI holds now is a
                 # partly refreshed view that nothing schedules for repair until the next GitHub notification
@@ -176,15 +227,49 @@ class World:
             self.fails.append(('update-does-not-terminate', 'harness guard (not part of the statement): an update terminates',
                                f'{which} notification made > 3000 GitHub calls; {len(self.attempts)} merge attempts so far'))
         except Exception as e:      # noqa: BLE001
-            raise self.env.F.HarnessBug(f'_update raised an exception the harness does not expect: {type(e).__name__}: {e}') from e
+            if not self.faults.is_injected(e):
+                raise self.env.F.HarnessBug(f'_update raised an exception the harness does not expect: {type(e).__name__}: {e}') from e
+            names = frames(e)
+            where = names[-1] if names else '?'
+            self.classes.add(f'update_raised:fault:{type(e).__name__}@{where}')
+            self.classes.add(f'fault_aborted:{which}')
+            refreshed(names)
+            if '_update_github' in names:
+                # not refresh_aborted: a fault is fail-before-effect, so no fact that was served to CI gets dropped by it and a
+                # strict failure later on keeps its own signature
+                self.refresh_failed = True
+                self.classes.add('refresh_failed')
+        finally:
+            self.in_drive = None
+            self.faults.end_entry_point()
 
     # -- the oracle ----------------------------------------------------------------------------------------------------------
+    def truth_mergeable(self, n):
+        """Ground truth only: would the statement allow merging PR n right now?"""
+        gh = self.gh
+        pr = gh.prs[n]
+        if pr['state'] != 'open' or pr['review'] != 'APPROVED' or any(l in DNM for l in pr['labels']):
+            return False
+        sts = gh.statuses.get(pr['head'], {})
+        if any(c in gh.required and v['state'] not in ('SUCCESS', 'NEUTRAL') for c, v in sts.items()):
+            return False
+        if sts.get(gh.ci_context, {}).get('state') != 'SUCCESS':
+            return False
+        return any('test' in r['attributes'] and r['attributes'].get('source_sha') == pr['head'] and r['complete']
+                   and r['state'] == 'success' and r['attributes'].get('target_sha') == gh.target_sha for r in self.svc.records)
+
     def monitor(self, n, data, verdict):
         gh, svc = self.gh, self.svc
         now = gh.tick
         pr = gh.prs.get(n)
         att = dict(pr=n, sha=data.get('sha'), tick=now, verdict=verdict, strict=[], stale=[])
         self.attempts.append(att)
+        if sum(1 for m in gh.prs if self.truth_mergeable(m)) >= 2:
+            self.classes.add('two_mergeable')      # >= 2 PRs legitimately mergeable against the same target commit right now
+        if self.refresh_failed:
+            self.classes.add('merge_attempt_after_failed_refresh')
+        if self.in_drive:
+            self.classes.add(f'merge_attempt_in:{self.in_drive}')
         if pr is None:
             self.fails.append(('merge-unknown-pr', 'merges a pull request', f'PUT merge for PR {n} that never existed'))
             return
@@ -208,6 +293,8 @@ class World:
             if changed_t > read_t:
                 att['stale'].append(fact)
                 self.classes.add(f'stale_view:{fact}')
+                if self.refresh_failed:
+                    self.classes.add(f'stale_view_after_failed_refresh:{fact}')
             else:
                 if self.refresh_aborted and fact in ('review', 'labels', 'status', 'open', 'head', 'target'):
                     sig = f'merge-on-view-left-stale-by-aborted-refresh:{self.refresh_aborted}'
@@ -239,6 +326,15 @@ class World:
               f'required contexts not passing on head: {bad_req}', 'status')
         own = sts.get(gh.ci_context)
         own_ok = own is not None and own['state'] == 'SUCCESS'
+        lost = gh.ci_status_lost.get(pr['head'])
+        if not own_ok and lost is not None and lost[0] == 'SUCCESS' and (own is None or own['t'] < lost[1]):
+            # CI's own context is CI's report of its test batch.  Its latest POST of SUCCESS for this head was lost to an
+            # injected fault (post_github_status logs and goes on) and nobody wrote the context since, so GitHub still shows
+            # the state from before.  The substance
+            # of the clause -- a green test batch for (head, current target) -- is judged below from the Batch ground truth;
+            # the missing mirror write is counted, not flagged (with branch protection GitHub itself answers 405).
+            own_ok = True
+            self.classes.add('own_status_post_lost_before_merge')
         ext_own = own is not None and own['by'] != 'ci'
         shared = any(m != n and pr['head'] in p['heads'] for m, p in gh.prs.items())
         if shared and not own_ok:
@@ -250,7 +346,10 @@ class World:
         green_head = [r for r in svc.records if 'test' in r['attributes'] and r['attributes'].get('source_sha') == pr['head']
                       and r['complete'] and r['state'] == 'success']
         green_cur = [r for r in green_head if r['attributes'].get('target_sha') == gh.target_sha]
-        if gh.merges_since_refs_read > 0:
+        if gh.merges_since_refs_read > 0 and pr['state'] != 'open':
+            # a repeated PUT for a PR that is already merged / closed cannot merge anything (GitHub answers 405)
+            self.classes.add('futile_merge_call_before_target_reread')
+        elif gh.merges_since_refs_read > 0:
             att['strict'].append('second-merge-before-retest')
             self.fails.append(('second-merge-before-retest', 'at most one merge per target-branch update',
                                f'{gh.merges_since_refs_read} merge(s) already succeeded since CI last read the target branch. {ctx}'))
@@ -393,6 +492,14 @@ class World:
         elif kind == 'tick':
             self.drive('update')
             return
+        elif kind == 'fault':
+            _, cls, skip, nfail, fkind, ttl = op
+            side = 'batch' if cls in self.env.F.BATCH_CLASSES or cls == 'batch-any' else 'gh'
+            self.faults.arm(side, 'any' if cls.endswith('-any') else cls, int(skip), int(nfail), fkind, int(ttl))
+            self.classes.add('fault_armed')
+            if nfail > 1:
+                self.classes.add('fault_burst_or_outage')
+            return
         elif kind == 'nb':
             self.drive('batch')
             return
@@ -475,7 +582,28 @@ _TABLE = [(18, 'green'), (22, 'tick'), (24, 'green_silent'), (32, 'approve'), (3
           (75, 'deploy'), (76, 'conflict'), (78, 'freeze'), (79, 'restart'), (80, 'nb'), (81, 'ng'),
           (84, 'F_approve_green'), (88, 'F_silent_perturb_then_green'), (90, 'F_silent_perturb_then_tick'),
           (92, 'F_silent_green_then_perturb'), (97, 'F_green_blocked_perturb_unblock'), (99, 'F_frozen_green_perturb_unfreeze'),
-          (100, 'F_check_run_in_progress')]
+          (100, 'F_check_run_in_progress'),
+          # fault injection and the notifications that matter after a failed refresh (added behind the original table)
+          (106, 'fault'), (109, 'nb'), (110, 'ng'), (113, 'F_two_green'), (117, 'F_fault_then_event'),
+          (121, 'F_two_green_fault_notify'), (124, 'F_outage_then_events')]
+_W = _TABLE[-1][0]
+
+# call classes a fault can be aimed at, weighted (41 slots = range of operand b): the target-branch read and the untargeted
+# "k-th call from now" are the most frequent; every class of both clients occurs
+_FAULT_CLS = (['refs'] * 8 + ['gh-any'] * 7 + ['graphql'] * 5 + ['pulls'] * 4 + ['merge'] * 4 + ['status'] * 3 + ['assignees']
+              + ['list'] * 3 + ['bstatus'] * 3 + ['submit'] * 2 + ['cancel'] + [])
+_FAULT_CLS = _FAULT_CLS + ['batch-any'] * (41 - len(_FAULT_CLS))
+_GH_KINDS = ('http502', 'timeout', 'http403', 'disconnect', 'client_response_error')
+_B_KINDS = ('batch404', 'batch403')
+
+
+def fault_op(a, b, c, d, e):
+    cls = _FAULT_CLS[b % len(_FAULT_CLS)]
+    batch = cls in ('list', 'bstatus', 'submit', 'cancel', 'batch-any')
+    skip = (2 * a + c) if cls.endswith('-any') else (0, 0, 0, 1, 2)[c % 5]
+    nfail = (1, 1, 2, 99)[d % 4]
+    kind = _B_KINDS[e % 2] if batch else _GH_KINDS[e % 5]
+    return ['fault', cls, skip, nfail, kind, 1 if nfail == 99 else 3]
 
 
 def decode(t):
@@ -507,6 +635,20 @@ def decode(t):
         return ['close', a, flag]
 
     green = ['batch', a, 0, 1]
+    event = [green, ['tick'], ['ng'], ['nb'], push(1), target(1), ['review', a, 0, 1]][e % 7]
+    if name == 'fault':
+        return [fault_op(a, b, c, d, e)]
+    if name == 'F_two_green':
+        # two test batches finish, CI hears of it once: both PRs become mergeable against the same target commit together
+        return [['batch', a, 0, 0], green]
+    if name == 'F_fault_then_event':
+        return [fault_op(a, b, c, d, e), event]
+    if name == 'F_two_green_fault_notify':
+        return [['batch', a, 0, 0], fault_op(a, b, c, d, e), green, [['nb'], green, ['nb'], ['tick'], ['ng']][(a + c) % 5]]
+    if name == 'F_outage_then_events':
+        side = 'batch-any' if b % 4 == 0 else 'gh-any'
+        kind = _B_KINDS[e % 2] if side == 'batch-any' else _GH_KINDS[e % 5]
+        return [['fault', side, 0, 99, kind, 1 + c % 2], event, [['nb'], ['tick'], green][d % 3]]
     simple = {
         'tick': [['tick']], 'green': [green], 'green_silent': [['batch', a, 0, 0]], 'approve': [['review', a, 0, dl]],
         'batch_bad': [['batch', a, 1 + b % 2, dl]], 'push': [push(dl)], 'target': [target(dl)],
@@ -536,22 +678,28 @@ def decode(t):
 
 def _strategy(tier='quick'):
     from hypothesis import strategies as st
-    frag = st.tuples(st.integers(0, 99), st.integers(0, 5), st.integers(0, 40), st.integers(0, 4), st.integers(0, 3),
+    frag = st.tuples(st.integers(0, _W - 1), st.integers(0, 5), st.integers(0, 40), st.integers(0, 4), st.integers(0, 3),
                      st.integers(0, 6))
     frags = st.lists(frag, min_size=6, max_size=18 if tier == 'quick' else 28)
-    prs = st.lists(st.tuples(st.sampled_from([1, 1, 1, 1, 0]), st.sampled_from([-1, -1, -1, -1, 0, 2, 3]),
-                             st.sampled_from([0, 0, 0, 0, 1])).map(list), min_size=1, max_size=3)
+    one_pr = st.tuples(st.sampled_from([1, 1, 1, 1, 0]), st.sampled_from([-1, -1, -1, -1, 0, 2, 3]),
+                       st.sampled_from([0, 0, 0, 0, 1])).map(list)
+    # mostly 2..3 initial PRs: "at most one merge per target-branch update" says nothing about a lone PR
+    prs = st.integers(0, 5).flatmap(lambda k: st.lists(one_pr, min_size=1 if k == 0 else 2, max_size=1 if k == 0 else 3))
     cfg = st.fixed_dictionaries(dict(deployable=st.sampled_from([0, 0, 0, 0, 1]), ci_required=st.sampled_from([1, 1, 0]),
                                      dismiss_stale=st.sampled_from([0, 0, 1]), filler=st.sampled_from([0, 0, 11]), prs=prs))
 
     def build(d):
         ops = []
+        if len(d['cfg']['prs']) >= 2 and d['opener']:
+            # the PRs' first test batches (all against T0) finish before CI hears of any of them: the first notification finds
+            # >= 2 PRs mergeable against one target commit, the shape "at most one merge per update" is about
+            ops.extend([['batch', 0, 0, 0]] * (len(d['cfg']['prs']) - 1) if d['opener'] == 1 else [['batch', 0, 0, 0]])
         for t in d['frags']:
             if d['cfg']['deployable'] and t[2] % 3 != 2:
                 ops.append(['deploy', 0, 1])        # on a deployable branch merges wait for the running deploy to finish
             ops.extend(decode(t))
         return dict(cfg=d['cfg'], ops=ops[:70])
-    return st.fixed_dictionaries(dict(cfg=cfg, frags=frags)).map(build)
+    return st.fixed_dictionaries(dict(cfg=cfg, frags=frags, opener=st.sampled_from([0, 0, 0, 1, 1, 2]))).map(build)
 
 
 def _minimise(case, sig, msg, budget=400):
